@@ -257,6 +257,50 @@ def x509ish : Verifier := fun c name t =>
   c.byCA && decide (c.notBefore ≤ t) && decide (t ≤ c.notAfter) &&
     (c.kind == san name) && eqFold c.sanVal name
 
+/-! ## The name between the cache lookup and the template: every length
+
+  `cert` keeps the requested name in ONE variable, `hostname`, from the lookup `c.certs.Get(hostname)`
+  through `Subject.CommonName`, the SAN decision and `DNSNames`/`IPAddresses` to
+  `c.certs.Add(hostname, tlsc)`: lookup key, common name, SAN and storage key are the requested name
+  itself, whatever its length (crypto/x509 enforces neither RFC 5280's ub-common-name of 64 nor the
+  253 / 63 limits of DNS; DNS names run to 253 characters).  `NameHandling.verbatim` is the tree;
+  `NameHandling.cutAt k` is the variant that shortens the variable to `k` bytes between the lookup
+  and the template (`if len(hostname) > k { hostname = hostname[:k] }`) — it exists for the witness
+  theorems only. -/
+
+inductive NameHandling where
+  | verbatim
+  | cutAt (limit : Nat)
+  deriving DecidableEq, Repr
+
+/-- the value of `hostname` when the template is filled in and the leaf is stored -/
+def issuedName : NameHandling → Bytes → Bytes
+  | .verbatim, n => n
+  | .cutAt k, n => if n.length > k then n.take k else n
+
+/-- the key of `c.certs.Add` for a leaf issued on behalf of `name` -/
+def cacheKey (h : NameHandling) (name : Bytes) : Bytes := issuedName h name
+
+/-- `Config.cert` with the handling of the name explicit: looked up under the requested name, a hit
+    re-validated for it, a new leaf filled in from `issuedName` -/
+def certForH (h : NameHandling) (vf : Verifier) (validity : Int) (cache : Cache) (name : Bytes)
+    (now : Int) : Cert :=
+  match cache name with
+  | some c => if vf c name now then c else fresh validity (issuedName h name) now
+  | none => fresh validity (issuedName h name) now
+
+/-- … and where the new leaf is stored -/
+def cacheAfterH (h : NameHandling) (vf : Verifier) (validity : Int) (cache : Cache) (name : Bytes)
+    (now : Int) : Cache :=
+  match cache name with
+  | some c =>
+    if vf c name now then cache
+    else fun k => if k = cacheKey h name then some (fresh validity (issuedName h name) now) else cache k
+  | none => fun k => if k = cacheKey h name then some (fresh validity (issuedName h name) now) else cache k
+
+/-- the DNS/IP names a leaf is good for, as `VerifyHostname` reads them: its single SAN -/
+def leafNames (c : Cert) : List Bytes := [c.sanVal]
+
 /-! ## Interception decision -/
 
 /-- `RegexpMatcher.match`: exclude first, then include -/
